@@ -1,5 +1,181 @@
-(** C03 -- placeholder while the models are validated; theorems follow. *)
+(** C03 -- Every grammar-conformant GDSII stream is read to exactly the content it encodes.
+    Property theorems only; proofs in Gds/GdsRtRead_proofs.v (the reader on encoded records),
+    Gds/GdsRoundtrip_proofs.v, Gds/GdsRtSpec_proofs.v (specification side), Gds/GdsRtUnsupp_proofs.v.
+
+    Streams: [spec_render l] of the independent specification Gds/GdsSpec.v (reference encoder,
+    written from the format manual), followed by ARBITRARY bytes [tail] (tape-block padding).
+    Reader model: Gds/GdsRead.v, [read_lib] = gds21 `GdsLibrary::from_bytes`, with the fuel
+    [read_fuel] (3 + length/4) computed from the input. Vocabulary ([lib_ok], [KnownClass_C01],
+    [some_payload_too_long], [lib_canon], [lib_rust_eqb]): see Properties/C02.v.
+    The reference encoding exists only when every payload fits the 16-bit record length, hence the
+    hypothesis [some_payload_too_long l = false]. *)
 From Coq Require Import ZArith Bool List.
-From L21 Require Import Base.Outcome Base.Hex Gds.GdsData Gds.GdsRecord Gds.GdsWrite Gds.GdsRead Gds.GdsSpec.
+From L21 Require Import Base.Outcome Base.Hex Base.F64 Gds.GdsData Gds.GdsRecord Gds.GdsWrite Gds.GdsRead
+  Gds.GdsSpec Gds.GdsRtDefs Gds.GdsRtStrip Gds.GdsRtExamples Gds.GdsWTables_proofs Gds.GdsWrite_proofs Gds.GdsWFits_proofs
+  Gds.GdsRoundtrip_proofs Gds.GdsRtSpec_proofs Gds.GdsRtUnsupp_proofs Gds.GdsRtUnsuppKind_proofs Gds.GdsRtStrip_proofs.
 Import ListNotations.
 Local Open Scope Z_scope.
+
+Lemma C03_fits l : some_payload_too_long l = false -> lib_fitsb l = true.
+Proof. intros H. rewrite GdsW_fits_iff_payloads, H. reflexivity. Qed.
+
+(** (1) The reader reads the reference encoding of any library -- all seven element kinds, every
+    subset of the optional records, property lists, empty / odd / even strings, any dates, any
+    coordinates -- whatever bytes follow ENDLIB, to that library; a real-valued field holding
+    -0.0 comes back as +0.0, everything else bit for bit. *)
+Theorem C03_reads_reference :
+  forall l tail, lib_ok l -> ~ KnownClass_C01 l -> some_payload_too_long l = false ->
+    read_lib (spec_render l ++ tail) = Ok (lib_canon l).
+Proof.
+  intros l tail Hok Hk Hf. rewrite (GdsRtS_spec_render_encb l Hok), <- (GdsRt_readback_canon l Hok).
+  apply GdsRt_reads_encoded; [apply GdsRt_lib_ok_shape, Hok | exact Hk | apply C03_fits, Hf].
+Qed.
+Corollary C03_reads_reference_eq :
+  forall l tail, lib_ok l -> ~ KnownClass_C01 l -> some_payload_too_long l = false ->
+    exists l', read_lib (spec_render l ++ tail) = Ok l' /\ lib_rust_eqb l l' = true.
+Proof.
+  intros l tail Hok Hk Hf. exists (lib_canon l).
+  split; [apply C03_reads_reference; assumption | apply GdsRt_lib_ok_canon_rust_eq, Hok].
+Qed.
+Corollary C03_reads_reference_exact :
+  forall l tail, lib_ok l -> ~ KnownClass_C01 l -> some_payload_too_long l = false ->
+    (forall x, In x (lib_reals l) -> x <> two63) ->
+    read_lib (spec_render l ++ tail) = Ok l.
+Proof.
+  intros l tail Hok Hk Hf Hz. rewrite (C03_reads_reference l tail Hok Hk Hf), (GdsRt_canon_no_negzero l Hz). reflexivity.
+Qed.
+
+(** (2) The specification is self-consistent: its decoder inverts its encoder (so the streams above
+    do encode [l] "according to the grammar"), and the reference encoding is a well-formed stream. *)
+Theorem C03_spec_self_consistent :
+  forall l tail, lib_ok l -> ~ KnownClass_C01 l -> some_payload_too_long l = false ->
+    spec_parse (spec_render l ++ tail) = Some (lib_canon l) /\ stream_wf (spec_render l ++ tail).
+Proof.
+  intros l tail Hok Hk Hf. split.
+  - apply GdsRtS_spec_parse_render; [exact Hok | exact Hk | apply C03_fits, Hf].
+  - apply GdsRtS_stream_wf_render; [exact Hok | exact Hk | apply C03_fits, Hf].
+Qed.
+(** hence reader and reference decoder agree on every reference stream *)
+Corollary C03_reader_agrees_with_spec :
+  forall l tail, lib_ok l -> ~ KnownClass_C01 l -> some_payload_too_long l = false ->
+    exists l', read_lib (spec_render l ++ tail) = Ok l' /\ spec_parse (spec_render l ++ tail) = Some l'.
+Proof.
+  intros l tail Hok Hk Hf. exists (lib_canon l). split.
+  - apply C03_reads_reference; assumption.
+  - apply C03_spec_self_consistent; assumption.
+Qed.
+
+(** (2') For EVERY library (also inside the known class): reader and reference decoder both return
+    [lib_canon (lib_strip l)], i.e. [l] with the last byte removed from every string of even length
+    ending in NUL ([lib_strip], Gds/GdsRtStrip.v; [lib_strip l = l] outside the class); the stream is
+    well formed. *)
+Theorem C03_reads_reference_total :
+  forall l tail, lib_ok l -> some_payload_too_long l = false ->
+    read_lib (spec_render l ++ tail) = Ok (lib_canon (lib_strip l)) /\
+    spec_parse (spec_render l ++ tail) = Some (lib_canon (lib_strip l)) /\ stream_wf (spec_render l ++ tail).
+Proof.
+  intros l tail Hok Hf. split.
+  - rewrite (GdsRtS_spec_render_encb l Hok), <- (GdsRtP_readback_strip_canon l Hok).
+    apply GdsRtP_reads_encoded_total; [apply GdsRt_lib_ok_shape, Hok | apply C03_fits, Hf].
+  - apply GdsRtP_spec_parse_total; [exact Hok | apply C03_fits, Hf].
+Qed.
+
+(** (3) Streams that use the library-level features documented as unsupported: any of LIBDIRSIZE,
+    SRFNAME, LIBSECUR between BGNLIB and LIBNAME, any of REFLIBS, FONTS, ATTRTABLE, GENERATIONS,
+    FORMAT, MASK, ENDMASKS between LIBNAME and UNITS, with ANY payload, in any number: the answer
+    is an error, never a library. ([optrec] / [optrec_srec]: Gds/GdsRtDefs.v, GdsSpec.v [x_...].) *)
+Theorem C03_unsupported_is_error :
+  forall l (pre post : list optrec) tail,
+    lib_ok l -> ~ KnownClass_C01 l -> some_payload_too_long l = false -> pre ++ post <> [] ->
+    exists e, read_lib (spec_render_with (map optrec_srec pre) (map optrec_srec post) l ++ tail) = Err e.
+Proof.
+  intros l pre post tail Hok Hk Hf Hne. apply GdsRt_unsupported_is_error; [exact Hok | exact Hk | apply C03_fits, Hf | exact Hne].
+Qed.
+
+(** (3') ... and the error is `GdsError::Unsupported` when the optional records are ones gds21's
+    record decoder accepts ([optrec_goodb], Gds/GdsRtUnsuppKind_proofs.v: integers in i16 range,
+    strings valid UTF-8 that fit and are outside the known class, LIBSECUR with exactly one integer
+    as gds21's arm `(LibSecur, I16, 2)` has it): the kind is decided by the FIRST optional record
+    ([optrec_error]: `Unsupported` for the eight documented types, `Parse` for a MASK / ENDMASKS
+    that does not follow FORMAT). *)
+Theorem C03_unsupported_kind :
+  forall l (pre post : list optrec) tail,
+    lib_ok l -> ~ KnownClass_C01 l -> some_payload_too_long l = false ->
+    forallb optrec_goodb (pre ++ post) = true -> pre ++ post <> [] ->
+    read_lib (spec_render_with (map optrec_srec pre) (map optrec_srec post) l ++ tail) =
+    Err (optrec_error (hd OEndMasks (pre ++ post))).
+Proof.
+  intros l pre post tail Hok Hk Hf Hg Hne. apply GdsRt_unsupported_kind; [exact Hok | exact Hk | apply C03_fits, Hf | exact Hg | exact Hne].
+Qed.
+
+(** (4) The excluded class: the reference encoding of a library named "a\0" is 61 00, read as "a". *)
+Theorem C03_known_class_refuted :
+  exists l tail, lib_ok l /\ KnownClass_C01 l /\ some_payload_too_long l = false /\
+    exists l', read_lib (spec_render l ++ tail) = Ok l' /\ lib_rust_eqb l l' = false.
+Proof.
+  exists GdsRt_known_lib, [0; 0; 255]. split; [vm_compute; reflexivity|]. split; [vm_compute; reflexivity|].
+  split; [vm_compute; reflexivity|]. exists GdsRt_known_lib_read. split; vm_compute; reflexivity.
+Qed.
+
+(** Non-vacuity: the library with every element kind and every optional field (and none) meets the
+    hypotheses and is read back from its reference encoding followed by garbage, by computation;
+    each optional library-level record gives the `Unsupported` error by computation. *)
+Example C03_nonvacuous :
+  lib_okb GdsRt_full_lib = true /\ known_class_c01b GdsRt_full_lib = false /\
+  some_payload_too_long GdsRt_full_lib = false /\
+  (match read_lib (spec_render GdsRt_full_lib ++ [0; 0; 7; 255; 0; 4; 4; 0]) with
+   | Ok l' => lib_eqb l' GdsRt_full_lib | _ => false end) = true /\
+  lib_okb GdsRt_negzero_lib = true /\ some_payload_too_long GdsRt_negzero_lib = false /\
+  (match read_lib (spec_render GdsRt_negzero_lib) with
+   | Ok l' => lib_eqb l' (lib_canon GdsRt_negzero_lib) && negb (lib_eqb l' GdsRt_negzero_lib) && lib_rust_eqb l' GdsRt_negzero_lib
+   | _ => false end) = true /\
+  lib_okb GdsRt_max_xy_lib = true /\ some_payload_too_long GdsRt_max_xy_lib = false /\
+  forallb (fun o => match read_lib (spec_render_with (map optrec_srec (fst o)) (map optrec_srec (snd o)) GdsRt_full_lib) with
+                    | Err EUnsupported => true | _ => false end)
+          [([OLibDirSize 3], []); ([OSrfName [83; 82]], []); ([OLibSecur [1]], []);
+           ([], [ORefLibs [108; 105; 98; 0]]); ([], [OFonts [70]]); ([], [OAttrTable [65]]);
+           ([], [OGenerations 3]); ([], [OFormat 0])] = true /\
+  forallb optrec_goodb [OLibDirSize 3; OSrfName [83; 82]; OLibSecur [1]; ORefLibs [108; 105; 98]; OFonts [70];
+                        OAttrTable [65]; OGenerations 3; OFormat 1; OMask [49; 32; 53]; OEndMasks] = true.
+Proof. vm_compute. repeat split; reflexivity. Qed.
+
+(** statements pinned *)
+Check C03_reads_reference :
+  forall l tail, lib_ok l -> ~ KnownClass_C01 l -> some_payload_too_long l = false ->
+    read_lib (spec_render l ++ tail) = Ok (lib_canon l).
+Check C03_reads_reference_eq :
+  forall l tail, lib_ok l -> ~ KnownClass_C01 l -> some_payload_too_long l = false ->
+    exists l', read_lib (spec_render l ++ tail) = Ok l' /\ lib_rust_eqb l l' = true.
+Check C03_reads_reference_exact :
+  forall l tail, lib_ok l -> ~ KnownClass_C01 l -> some_payload_too_long l = false ->
+    (forall x, In x (lib_reals l) -> x <> two63) -> read_lib (spec_render l ++ tail) = Ok l.
+Check C03_spec_self_consistent :
+  forall l tail, lib_ok l -> ~ KnownClass_C01 l -> some_payload_too_long l = false ->
+    spec_parse (spec_render l ++ tail) = Some (lib_canon l) /\ stream_wf (spec_render l ++ tail).
+Check C03_reads_reference_total :
+  forall l tail, lib_ok l -> some_payload_too_long l = false ->
+    read_lib (spec_render l ++ tail) = Ok (lib_canon (lib_strip l)) /\
+    spec_parse (spec_render l ++ tail) = Some (lib_canon (lib_strip l)) /\ stream_wf (spec_render l ++ tail).
+Check C03_unsupported_is_error :
+  forall l (pre post : list optrec) tail,
+    lib_ok l -> ~ KnownClass_C01 l -> some_payload_too_long l = false -> pre ++ post <> [] ->
+    exists e, read_lib (spec_render_with (map optrec_srec pre) (map optrec_srec post) l ++ tail) = Err e.
+Check C03_unsupported_kind :
+  forall l (pre post : list optrec) tail,
+    lib_ok l -> ~ KnownClass_C01 l -> some_payload_too_long l = false ->
+    forallb optrec_goodb (pre ++ post) = true -> pre ++ post <> [] ->
+    read_lib (spec_render_with (map optrec_srec pre) (map optrec_srec post) l ++ tail) =
+    Err (optrec_error (hd OEndMasks (pre ++ post))).
+Check C03_known_class_refuted :
+  exists l tail, lib_ok l /\ KnownClass_C01 l /\ some_payload_too_long l = false /\
+    exists l', read_lib (spec_render l ++ tail) = Ok l' /\ lib_rust_eqb l l' = false.
+
+Print Assumptions C03_reads_reference.
+Print Assumptions C03_reads_reference_eq.
+Print Assumptions C03_reads_reference_exact.
+Print Assumptions C03_spec_self_consistent.
+Print Assumptions C03_reader_agrees_with_spec.
+Print Assumptions C03_reads_reference_total.
+Print Assumptions C03_unsupported_is_error.
+Print Assumptions C03_unsupported_kind.
+Print Assumptions C03_known_class_refuted.
